@@ -81,7 +81,7 @@ def same_dtype(a, b):
 
 
 def make(pb, cls, L, rate, t0=None, nchan=3, extra=(), center_freq=None, chan_bw=None,
-         freq_align="center", pol_type="linear", data=None, dtype=None, meta=None, layout=None):
+         freq_align="center", pol_type="linear", data=None, dtype=None, meta=None, layout=None, no_swap=False):
     shape = sample_shape(cls, nchan, extra)
     if data is None:
         data = index_data(cls, L, shape, dtype)
@@ -89,7 +89,10 @@ def make(pb, cls, L, rate, t0=None, nchan=3, extra=(), center_freq=None, chan_bw
         # deterministic per input: half of all NumPy-backed inputs are not C-contiguous
         head = np.ascontiguousarray(data[:2]).tobytes()[:256] if isinstance(data, np.ndarray) and data.ndim else b""
         key = (zlib.crc32(repr((cls, int(L), tuple(np.shape(data)), str(rate), str(t0))).encode() + head) >> 3) % len(LAYOUTS)
-        data = relayout(data, layout or LAYOUTS[key])
+        how = layout or LAYOUTS[key]
+        if no_swap and how == "swapped":
+            how = "strided"              # (an out= target keeps the dtype it was made with: classes with a dtype requirement recast a swapped buffer)
+        data = relayout(data, how)
     # arguments equal to their documented defaults are left out: the defaults are part of the interface
     kw = dict(sample_rate=rate)
     if t0 is not None:
